@@ -40,6 +40,9 @@ func checkC19(c *Ctx) {
 	// cleared by an earlier DISCONNECT must not survive a session resume)
 	c.sessionConnectAndWill()
 	c.drainBeforeEOF()
+	// the receiver keeps reading the socket (and so notices silence and the peer's close) whatever the processor waits for
+	c.ringMemorySafety()
+	c.ringSpaceAccounting()
 }
 
 // deadlineReader: the reader the receiver pumps from re-arms the deadline before every read.
